@@ -75,6 +75,19 @@ def run(res, tier, seed, broken):
     if e2:
         broken = broken + [{"obligation": "implementation side (nested programs) failed to run", "log": e2[-3000:]}]
 
+    # array-valued DAGs through the built-in rules (cotangents handed on as the same array object, all-zero
+    # contributions from inactive branches, values used three or more times), ordinary writable cotangents: every
+    # gradient entry against forward mode
+    o3, e3 = C.run_impl("impl_c10.py", {"seed": seed + 9, "n": 0, "n_progs": 0, "n_dags": 2500 if big else 500, "n_cont": 0,
+                                        "writable": True})
+    if o3 is None:
+        broken = broken + [{"obligation": "implementation side (array DAGs) failed to run", "log": (e3 or "")[-3000:]}]
+    else:
+        res.add_cases(o3["oracle_n"], o3["oracle_keys"], [])
+        for k, v in o3["dist"].items():
+            res.count("array-dag " + k, v)
+        bad = bad + sorted(o3["oracle_bad"], key=lambda c: len(str(c)))[:5]
+
     def hunt():
         found = []
         for k in range(6 if big else 2):
